@@ -441,7 +441,7 @@ def lay_out(sc, pattern):
         if t:
             w.put(s, sh, ent["v"], "prefixbad", t[0], "bad:" + t[2])
             sc.code_of(t[0], register_from=ent["v"])
-    if pattern == "front":
+    if pattern in ("front", "hidden"):
         pass
     elif pattern == "missing":
         for (s, sh) in rng.sample(slots(), rng.randint(1, max(1, n - sc.k))):
@@ -551,6 +551,8 @@ def scenario(g, rng, idx, k, n, thorough):
     pattern = rng.choice(PATTERNS)
     if pattern == "comp" and not sc.comp:
         pattern = "stale"
+    if op != "publish" and rng.random() < 0.15:
+        pattern = "hidden"
     lay_out(sc, pattern)
     # upload permission (grid manager certificates)
     unperm = []
@@ -576,6 +578,16 @@ def scenario(g, rng, idx, k, n, thorough):
     survey_failing = {s: "raise" for s in w.order if s in plan["dead"]}
     if rng.random() < 0.15 and not plan["dead"]:
         survey_failing = {s: "raise" for s in w.order if rng.random() < 0.2}
+    if pattern == "hidden":
+        # a copy of one share of the newest version sits on a server that does not answer the first survey (it answers
+        # later); somebody else replaces a share behind the writer's back: the retry loop meets the old version again
+        empty = [s for s in w.order if not any(k[0] == s for k in w.lay)] or [w.order[-1]]
+        hid = rng.choice(empty)
+        sh = rng.randrange(n)
+        if (hid, sh) not in w.lay:
+            w.put(hid, sh, 2, how="hidden")
+        survey_failing = {hid: "raise"}
+        plan.update({"pfault": 0, "dead": [], "interf": [rng.choice(["old_replace", "comp_replace"])]})
     # update() / modify() take the map only if it was last updated in MODE_WRITE (else they survey again into a map of
     # their own, which this driver could not observe)
     mode = MODE_CHECK if (rng.random() < 0.2 and op == "publish") else MODE_WRITE
